@@ -8,7 +8,7 @@ TRUSTED = [
     "Lean 4.33 kernel; axioms propext, Classical.choice, Quot.sound only",
     "Model/Bec2.lean, Model/P256.lean, Model/Ec.lean, Model/Sha256.lean tied to bec2file.py / the appnote plug-in / python-ecdsa / "
     "hashlib by the correspondence run (writer bytes and reader results with the RNG and key generator replaced by recording stubs)",
-    "named hypotheses of bec2_read_write: CryptoInv (adapter over an invertible AES: C16), EccLaws = ECDH symmetric + generated "
+    "named hypotheses of bec2_read_write: CryptoInv (proved for the bundled AES plug-in: C16 aes_plugin_instance; bec2_read_write_aes), EccLaws = ECDH symmetric + generated "
     "public keys load (C17), MacLen (proved for the adapter)",
 ]
 ASSUMPTIONS = [
